@@ -164,8 +164,21 @@ class C15:
         kw = callkw(reads[0].term)
         frames = kw.get("frames", reads[0].term[2][0] if reads[0].term[2] else None)
         want_frames = ("ite", ("cmp", "is", samples, NONE), ("const", -1), samples)
+        # the position sought: the offset itself, or the offset capped at the file's length (R15.6)
+        sk = seeks[0].term[2][0] if len(seeks[0].term[2]) == 1 else None
+        fpv = seeks[0].term[1][1]
+        frames_t = ("attr", fpv, "frames")
+        capped = sk is not None and sk[0] == "call" and sk[1] == ("builtin", "min") and set(sk[2]) == {offset, frames_t}
+        if capped:
+            ctx.ok("R15.6", f"{file}:{seeks[0].lineno} load_audio", "seek position capped at the number of frames of the file")
+        elif sk == offset:
+            ctx.bad("R15.6", file, "load_audio", "fp.seek(offset) (not capped at fp.frames)",
+                    "load_audio seeks to `offset` as given: libsndfile refuses a position beyond the last frame, so a clip that starts "
+                    "after the end of the file (Clip(2.1, 2.5) on a 2 s recording) fails with LibsndfileError instead of coming back "
+                    "zero-filled like every other clip that reaches past the end (a start exactly at the end already works)", seeks[0].lineno,
+                    witness={"file_seconds": 2.0, "clip": [2.1, 2.5], "observed": "LibsndfileError: psf_fseek() failed"})
         conds = {
-            "seek(offset) before read": seeks[0].term[2] == (offset,) and seeks[0].idx < reads[0].idx and seeks[0].term[1][1] == reads[0].term[1][1],
+            "seek(offset) before read": (sk == offset or capped) and seeks[0].idx < reads[0].idx and seeks[0].term[1][1] == reads[0].term[1][1],
             "frames = samples (-1 = all)": frames in (want_frames, ("ite", ("cmp", "isnot", samples, NONE), samples, ("const", -1))),
             "always_2d=True": kw.get("always_2d") == ("const", True),
             "fill_value=0": kw.get("fill_value") in (("const", 0), ("const", 0.0)),
@@ -351,6 +364,7 @@ class C15:
 
 def run(ctx: Ctx):
     ctx.rule("R15.1", "clip offset/length by floor, file read at that offset, axis from the snapped offset", 5)
+    ctx.rule("R15.6", "the seek position cannot lie beyond the last frame", 1)
     ctx.rule("R15.2", "seek before read; frames=samples; 2-D; zero fill; every path returns the read frames", 5)
     ctx.rule("R15.3", "advertised steps computed from the generating quantities", 8)
     ctx.rule("R15.4", "spectrogram time origin is the source's first time", 1)
@@ -364,5 +378,6 @@ def run(ctx: Ctx):
     from .c16 import C16
     with ctx.delegated("C16/"):
         ctx.rule("R16.1", "recorded step == generating step; create_time_range forwards start/stop/step (step mode)", 5)
+        ctx.rule("R16.5", "the trailing-element test does not index an empty range", 1)
         C16(ctx).check_range_dim(wrappers=("create_time_range",), size_mode=False)
     return EXPLANATION, ASSUMPTIONS
